@@ -71,7 +71,25 @@ def gen(rng, tier, n):
         if isinstance(j, list) and rng.random() < 0.4 and len(j) >= 1:
             # duplicates that are equal but not identical
             j = j + [rng.choice(j)]
-        doc = schema_for(rng, j) if rng.random() < 0.8 else gs.gen_document(gs.Ctx(rng, "2020", depth=2))
+        r = rng.random()
+        if r < 0.12:
+            # the same JSON value several times in one array, each occurrence in its own representation (json.Number spellings,
+            # typed arrays, pointers), under uniqueItems / const / enum / contains
+            x = gv.gen_json(rng, 1)
+            while not gv.float64_ok(x):
+                x = gv.gen_json(rng, 1)
+            j = [x, x] + ([gv.gen_json(rng, 0)] if rng.random() < 0.3 else [])
+            if not gv.float64_ok(j):
+                continue
+            doc = Obj([rng.choice([("uniqueItems", True), ("const", [x, x]), ("enum", [[x], [x, x]]),
+                                   ("items", Obj([("const", x)])), ("contains", Obj([("enum", [x])])) ])])
+        elif r < 0.2 and isinstance(j, Num) and j.frac().denominator == 1 and abs(j.frac()) >= 2**53:
+            doc = Obj([(rng.choice(["minimum", "exclusiveMinimum", "maximum", "exclusiveMaximum"]),
+                        Num(rng.choice(["0", "-1", "9223372036854775807", "9223372036854775808", "1e19"])))])
+        elif r < 0.84:
+            doc = schema_for(rng, j)
+        else:
+            doc = gs.gen_document(gs.Ctx(rng, "2020", depth=2))
         reprs = [gv.canonical_repr(j)] + [gv.represent(rng, j) for _ in range(3)]
         ops.append({"op": "validate", "args": {"schema": doc, "ginsts": reprs},
                     "meta": {"nt": isinstance(j, (list, Obj, Num))}})
